@@ -249,6 +249,32 @@ theorem task_last_dump (hg : Good true p.skel = true) (s0 : TaskSt) (N : Nat) :
   obtain ⟨k, st, kh, bst, _, _, _, e4⟩ := exec_body p lbs ubs o a b (p.runTask lbs ubs o s0 N)
   rw [e4]; simp
 
+/-- **C04, append-only.**  One more iteration adds exactly one record and leaves every earlier record as it was: the records of
+    `N` iterations are the first `N` records of `N + 1` iterations. -/
+theorem task_dumps_append (hg : Good true p.skel = true) (s0 : TaskSt) (N : Nat) :
+    ∃ r, (p.runTask lbs ubs o s0 (N + 1)).dumps = (p.runTask lbs ubs o s0 N).dumps ++ [r] := by
+  obtain ⟨_, a, b, hbody⟩ := good_pattern true p.skel hg
+  simp only [if_true] at hbody
+  simp only [runTask_succ, hbody]
+  obtain ⟨k, st, kh, bst, _, _, _, e4⟩ := exec_body p lbs ubs o a b (p.runTask lbs ubs o s0 N)
+  exact ⟨_, e4⟩
+
+theorem task_dumps_prefix (hg : Good true p.skel = true) (s0 : TaskSt) (N M : Nat) (h : N ≤ M) :
+    ∃ rest, (p.runTask lbs ubs o s0 M).dumps = (p.runTask lbs ubs o s0 N).dumps ++ rest ∧ rest.length = M - N := by
+  induction M with
+  | zero =>
+    have : N = 0 := by omega
+    subst this
+    exact ⟨[], by simp, by simp⟩
+  | succ m ih =>
+    by_cases hm : N ≤ m
+    · obtain ⟨rest, h1, h2⟩ := ih hm
+      obtain ⟨r, hr⟩ := task_dumps_append p lbs ubs o hg s0 m
+      exact ⟨rest ++ [r], by rw [hr, h1, List.append_assoc], by simp [h2]; omega⟩
+    · have : N = m + 1 := by omega
+      subst this
+      exact ⟨[], by simp, by simp⟩
+
 /-! ### C01: every sweep evaluates inside the box -/
 
 /-- **C01, sweep level.**  If the skeleton is good, the space-wide clip projects into the box, updates keep the declared
